@@ -53,6 +53,13 @@ PROPS = {
     "C28": dict(lanes=L(["rel", "dbg"])),
     "C29": dict(lanes=L(["rel", "dbg"])),
     "C30": dict(lanes=L(["rel", "dbg"])),
+    "C15": dict(lanes=L(["rel", "dbg"])),
+    "C16": dict(lanes=L(["rel", "dbg"])),
+    "C17": dict(lanes=L(["rel", "dbg"])),
+    "C18": dict(lanes=L(["rel", "dbg"])),
+    "C19": dict(lanes=L(["rel", "dbg"])),
+    "C20": dict(lanes=L(["rel", "dbg"])),
+    "C21": dict(lanes=L(["rel", "dbg"])),
     "C27": dict(lanes=L(["rel", "dbg"])),
     "C13": dict(lanes=L(["rel", "dbg"])),
     "C32": dict(lanes=L(["rel", "dbg"])),
